@@ -178,30 +178,23 @@ def runTxReqBodyHooks (cfg : Cfg) (uid : Nat) (data : Option Bytes) (isLast : Bo
      | .urlenc => urlencBodyCallback cfg uid data c
      | .mpart => mpartBodyCallback uid data c) >>? fun c => runTxReqBodyHooks cfg uid data isLast gapLen hs c
 
-/-- htp_req_run_hook_body_data -/
-def reqRunHookBodyData (cfg : Cfg) (data : Option Bytes) (gapLen : Nat) (c : Conn) : R :=
+/-- htp_req_run_hook_body_data with the `is_last` field of the data record given (the decompressor hands on the flag of the record
+    it was called with) -/
+def reqRunHookBodyDataL (cfg : Cfg) (data : Option Bytes) (gapLen : Nat) (isLast : Bool) (c : Conn) : R :=
   -- "Do not invoke callbacks with an empty data chunk"
   if data == some [] then (c, .ok) else
   match c.inn.tx with
   | none => (c, .ok)
   | some uid =>
     let t := c.inTx
-    let isLast := data.isNone && gapLen == 0
     -- transaction hooks first (library content handlers and user-registered tx hooks, in registration order)
     runTxReqBodyHooks cfg uid data isLast gapLen t.reqBodyHooks c >>? fun c =>
     runCallback .requestBodyData (some uid) data isLast c gapLen >>? fun c =>
     if c.putFile then runCallback .requestFileData (some uid) data false c gapLen else (c, .ok)
 
-/-- htp_tx_req_process_body_data_ex (no request decompression in the model: flagged unsupported) -/
-def reqProcessBodyData (cfg : Cfg) (data : Option Bytes) (gapLen : Nat) (c : Conn) : R :=
-  match c.inn.tx with
-  | none => (c, .error)
-  | some uid =>
-    if c.reqDecompressor then ({ c with unsupported := true }, .ok) else
-    let n := (data.map (·.length)).getD gapLen
-    let c := c.modTx uid (fun t => { t with reqEntityLen := t.reqEntityLen + n })
-    let (c, rc) := reqRunHookBodyData cfg data gapLen c
-    if rc != .ok then (c, .error) else (c, .ok)
+/-- htp_req_run_hook_body_data as htp_tx_req_process_body_data_ex calls it: is_last = (data == NULL && len == 0) -/
+def reqRunHookBodyData (cfg : Cfg) (data : Option Bytes) (gapLen : Nat) (c : Conn) : R :=
+  reqRunHookBodyDataL cfg data gapLen (data.isNone && gapLen == 0) c
 
 /-- htp_res_run_hook_body_data -/
 def resRunHookBodyData (data : Option Bytes) (c : Conn) : R :=
@@ -214,6 +207,10 @@ def resRunHookBodyData (data : Option Bytes) (c : Conn) : R :=
     runCallback .responseBodyData (some uid) data false c
 
 /-! ### the decompression driver (htp_decompressors.c) around an abstract inflate() -/
+
+/-- htp_gzip_decompressor_create -/
+def decCreate (cfg : Cfg) (ty : Nat) : Dec :=
+  { kind := ty, passthrough := ty == 4 && !(cfg.lzmaLayerLimit > 0) }
 
 def Z_OK : Int := 0
 def Z_STREAM_END : Int := 1
@@ -234,10 +231,19 @@ def gzipProbe (d : Bytes) : Nat :=
 /-- the bomb test of the decompressor callback: more than the configured limit AND more than 2048 times the compressed bytes -/
 def bombExceeded (limit entity message : Nat) : Bool := entity > limit && entity > COMPRESSION_BOMB_RATIO * message
 
-/-- htp_tx_res_process_body_data_decompressor_callback: account, run the body hooks, check for a bomb
-    (the time-based check is outside the model: the limit is assumed not to be reached) -/
-def decFinalCallback (uid : Nat) (data : Option Bytes) (c : Conn) : R :=
+/-- the callback at the end of a decompressor chain. `req = false`: htp_tx_res_process_body_data_decompressor_callback; `req = true`:
+    htp_tx_req_process_body_data_decompressor_callback. Both account the entity length, run the body hooks of their side and check for a
+    bomb against the wire length of their own message (the time-based check is outside the model: the limit is assumed not to be reached) -/
+def decFinalCallback (cfg : Cfg) (req : Bool) (uid : Nat) (isLast : Bool) (data : Option Bytes) (c : Conn) : R :=
   let n := (data.map (·.length)).getD 0
+  if req then
+    let c := c.modTx uid (fun t => { t with reqEntityLen := t.reqEntityLen + n })
+    let (c, rc) := reqRunHookBodyDataL cfg data 0 isLast c
+    if rc != .ok then (c, .error) else
+    let t := (c.findTx uid).getD { uid := uid }
+    if bombExceeded c.bombLimit t.reqEntityLen t.reqMessageLen then (c, .error)
+    else (c, .ok)
+  else
   let c := c.modTx uid (fun t => { t with resEntityLen := t.resEntityLen + n })
   let (c, rc) := resRunHookBodyData data c
   if rc != .ok then (c, .error) else
@@ -247,29 +253,34 @@ def decFinalCallback (uid : Nat) (data : Option Bytes) (c : Conn) : R :=
 
 mutual
 /-- where a layer sends its output: the next layer (when there is one and this layer is still initialised) or the callback -/
-def decSend (uid : Nat) : Nat → Bool → List Dec → Option Bytes → Conn → List Dec × R
+def decSend (cfg : Cfg) (req : Bool) (uid : Nat) (isLast : Bool) : Nat → Bool → List Dec → Option Bytes → Conn → List Dec × R
   | 0, _, rest, _, c => (rest, ({ c with unsupported := true }, .error))
   | fuel + 1, useNext, rest, data, c =>
-    if useNext && !rest.isEmpty then decompress uid fuel rest data c
-    else (rest, decFinalCallback uid data c)
+    if useNext && !rest.isEmpty then decompress cfg req uid fuel rest data c
+    else (rest, decFinalCallback cfg req uid isLast data c)
 
 /-- the `while (avail_in != 0)` loop of htp_gzip_decompressor_decompress on chunk `d` with `inp` still unread -/
-def decLoop (uid : Nat) (d : Bytes) : Nat → Dec → List Dec → Bytes → Conn → List Dec × R
+def decLoop (cfg : Cfg) (req : Bool) (uid : Nat) (d : Bytes) : Nat → Dec → List Dec → Bytes → Conn → List Dec × R
   | 0, drec, rest, _, c => (drec :: rest, ({ c with unsupported := true }, .error))
   | fuel + 1, drec, rest, inp, c =>
     if inp.isEmpty then (drec :: rest, (c, .ok)) else
     -- a full buffer is sent on first
     let flushed : Option (Dec × List Dec × Conn) :=
       if drec.buf.length == GZIP_BUF_SIZE then
-        let (rest, (c, rc)) := decSend uid fuel (drec.kind != 0) rest (some drec.buf) c
+        let (rest, (c, rc)) := decSend cfg req uid false fuel (drec.kind != 0) rest (some drec.buf) c
         if rc != .ok then none else some ({ drec with buf := [] }, rest, c)
       else some (drec, rest, c)
     match flushed with
     | none =>
       -- callback failed: htp_gzip_decompressor_end, return its code (re-run to get the state it left)
-      let (rest, (c, rc)) := decSend uid fuel (drec.kind != 0) rest (some drec.buf) c
+      let (rest, (c, rc)) := decSend cfg req uid false fuel (drec.kind != 0) rest (some drec.buf) c
       ({ drec with kind := 0 } :: rest, (c, rc))
-    | some (drec, rest, c) =>
+    | some (drec, rest, c) => decStep cfg req uid d fuel drec rest inp c
+
+/-- one pass of that loop after the buffer check: the inflate() call and what follows from its result -/
+def decStep (cfg : Cfg) (req : Bool) (uid : Nat) (d : Bytes) : Nat → Dec → List Dec → Bytes → Conn → List Dec × R
+  | 0, drec, rest, _, c => (drec :: rest, ({ c with unsupported := true }, .error))
+  | fuel + 1, drec, rest, inp, c =>
     if drec.kind == 4 then (drec :: rest, ({ c with unsupported := true }, .ok)) else   -- LZMA: not modelled
     if drec.kind == 0 then (drec :: rest, (c, .error)) else    -- "no initialization means previous error on stream"
     match c.zoracle with
@@ -280,7 +291,7 @@ def decLoop (uid : Nat) (d : Bytes) : Nat → Dec → List Dec → Bytes → Con
       let drec := { drec with buf := drec.buf ++ z.produced }
       let rc := if drec.buf.length > 0 && z.rc == Z_DATA_ERROR then Z_STREAM_END else z.rc
       if rc == Z_STREAM_END then
-        let (rest, (c, crc)) := decSend uid fuel (drec.kind != 0) rest (some drec.buf) c
+        let (rest, (c, crc)) := decSend cfg req uid false fuel (drec.kind != 0) rest (some drec.buf) c
         if crc != .ok then ({ drec with kind := 0 } :: rest, (c, crc))
         else ({ drec with buf := [] } :: rest, (c, .ok))       -- the rest of the input is dropped ("TODO Handle trailer")
       else if rc != Z_OK then
@@ -295,36 +306,58 @@ def decLoop (uid : Nat) (d : Bytes) : Nat → Dec → List Dec → Bytes → Con
         match restarted with
         | some (drec, consumed) =>
           if consumed > d.length then (drec :: rest, (c, .error))
-          else decLoop uid d fuel drec rest (d.drop consumed) c
+          else decLoop cfg req uid d fuel drec rest (d.drop consumed) c
         | none =>
           -- every attempt failed: hand the raw chunk to the callback and keep passing data through
           let drec := { drec with kind := 0 }
-          let (c, crc) := decFinalCallback uid (some d) c
+          let (c, crc) := decFinalCallback cfg req uid false (some d) c
           if crc != .ok then (drec :: rest, (c, .error))
           else ({ drec with buf := [], passthrough := true } :: rest, (c, .ok))
-      else decLoop uid d fuel drec rest inp c
+      else decLoop cfg req uid d fuel drec rest inp c
 
 /-- htp_gzip_decompressor_decompress on the chain `drec :: rest` -/
-def decompress (uid : Nat) : Nat → List Dec → Option Bytes → Conn → List Dec × R
+def decompress (cfg : Cfg) (req : Bool) (uid : Nat) : Nat → List Dec → Option Bytes → Conn → List Dec × R
   | 0, ds, _, c => (ds, ({ c with unsupported := true }, .error))
   | _ + 1, [], _, c => ([], (c, .error))
   | fuel + 1, drec :: rest, data, c =>
     if drec.passthrough then
-      let (c, rc) := decFinalCallback uid data c
+      let (c, rc) := decFinalCallback cfg req uid data.isNone data c
       (drec :: rest, (c, if rc != .ok then .error else .ok))
     else
     match data with
     | none =>
       -- end of the stream: what is in the buffer goes out (NULL when there is nothing)
       let dout := if drec.buf.length > 0 then some drec.buf else none
-      let (rest, (c, rc)) := decSend uid fuel (drec.kind != 0) rest dout c
+      let (rest, (c, rc)) := decSend cfg req uid true fuel (drec.kind != 0) rest dout c
       if rc != .ok && !(drec.kind != 0 && !rest.isEmpty) then ({ drec with kind := 0 } :: rest, (c, rc))
       else (drec :: rest, (c, rc))
-    | some d => decLoop uid d fuel drec rest d c
+    | some d => decLoop cfg req uid d fuel drec rest d c
 end
 
+/-- htp_tx_req_process_body_data_ex. With a request Content-Encoding that the library decodes (request decompression enabled) the data
+    goes through the request decompressor, whose return value is ignored; NULL data - the end of the body, but also a stream gap - shuts
+    the decompressor down, after which further body data is refused. -/
+def reqProcessBodyData (cfg : Cfg) (data : Option Bytes) (gapLen : Nat) (c : Conn) : R :=
+  match c.inn.tx with
+  | none => (c, .error)
+  | some uid =>
+    let t := (c.findTx uid).getD { uid := uid }
+    if t.reqContentEncoding == 2 || t.reqContentEncoding == 3 || t.reqContentEncoding == 4 then
+      if c.inDecs.isEmpty then (c, .error) else
+      if !c.zused then ({ c with unsupported := true }, .ok) else
+      -- a stream gap through the request decompressor (NULL data, is_last = 0) is outside the model
+      if data.isNone && gapLen > 0 then ({ c with unsupported := true }, .ok) else
+      let n := (data.map (·.length)).getD gapLen
+      let (ds, (c, _)) := decompress cfg true uid (8 * n + 128) c.inDecs data c
+      ({ c with inDecs := if data.isNone then [] else ds }, .ok)
+    else
+    let n := (data.map (·.length)).getD gapLen
+    let c := c.modTx uid (fun t => { t with reqEntityLen := t.reqEntityLen + n })
+    let (c, rc) := reqRunHookBodyData cfg data gapLen c
+    if rc != .ok then (c, .error) else (c, .ok)
+
 /-- htp_tx_res_process_body_data_ex -/
-def resProcessBodyData (data : Option Bytes) (c : Conn) : R :=
+def resProcessBodyData (cfg : Cfg) (data : Option Bytes) (c : Conn) : R :=
   match c.out.tx with
   | none => (c, .error)
   | some uid =>
@@ -335,7 +368,7 @@ def resProcessBodyData (data : Option Bytes) (c : Conn) : R :=
       if c.outDecs.isEmpty then (c, .error) else
       if !c.zused then ({ c with unsupported := true }, .ok) else
       -- the return value of the decompressor is ignored
-      let (ds, (c, _)) := decompress uid (4 * n + 64) c.outDecs data c
+      let (ds, (c, _)) := decompress cfg false uid (8 * n + 128) c.outDecs data c
       let c := { c with outDecs := if data.isNone then [] else ds }
       (c, .ok)
     else if t.resContentEncodingProcessing == 1 then
@@ -482,11 +515,19 @@ def txProcessRequestHeaders (cfg : Cfg) (uid : Nat) (c : Conn) : R :=
   let t := (c.findTx uid).getD { uid := uid }
   -- request decompression (off by default; the model flags it unsupported when a decompressor is built)
   let ce := getHeaderC t.reqHeaders (b!"content-encoding")
-  let needDec := cfg.requestDecompression && (match ce with
-    | some ce => [(b!"gzip"), (b!"x-gzip"), (b!"deflate"), (b!"x-deflate"), (b!"lzma")].any
-        (fun n => Bstr.cmpMemNocaseNorzero ce.value n == 0)
-    | none => false)
-  let c := if needDec then { c with reqDecompressor := true, unsupported := true } else c
+  let enc : Nat :=
+    if !cfg.requestDecompression then 0 else
+    match ce with
+    | some ce =>
+      let is (n : Bytes) : Bool := Bstr.cmpMemNocaseNorzero ce.value n == 0
+      if is (b!"gzip") || is (b!"x-gzip") then 2
+      else if is (b!"deflate") || is (b!"x-deflate") then 3
+      else if is (b!"lzma") then 4 else 1
+    | none => 1
+  let c := c.modTx uid (fun t => { t with reqContentEncoding := enc })
+  let t := (c.findTx uid).getD { uid := uid }
+  -- a decompressor left over from an earlier request is destroyed first
+  let c := if enc == 2 || enc == 3 || enc == 4 then { c with inDecs := [decCreate cfg enc], reqDecompressor := true } else c
   let fr := requestFraming t.reqHeaders t.protocolNumber t.flags
   let t := { t with reqTransferCoding := fr.coding, flags := fr.flags,
                     reqContentLength := if (getHeaderC t.reqHeaders (b!"transfer-encoding")).isNone &&
@@ -618,7 +659,7 @@ def txStateResponseCompleteEx (cfg : Cfg) (uid : Nat) (c : Conn) : R :=
   (if t.resProgress != 5 then
      let c := c.modTx uid (fun t => { t with resProgress := 5 })
      -- htp_tx_res_process_body_data_ex(tx, NULL, 0): return value ignored
-     let c := if t.resTransferCoding != CODING_NO_BODY then (resProcessBodyData none c).1 else c
+     let c := if t.resTransferCoding != CODING_NO_BODY then (resProcessBodyData cfg none c).1 else c
      runCallback .responseComplete (some uid) none false c >>? fun c =>
      resReceiverFinalizeClear c
    else (c, .ok)) >>? fun c =>
@@ -674,10 +715,6 @@ def ceChainLoop (layerLimit lzmaLimit : Int) : Nat → Bytes → Int → Int →
       else ceChainLoop layerLimit lzmaLimit fuel (input.drop (tok.length + 1)) layers nblzma acc
 
 def ceChain (cfg : Cfg) (value : Bytes) : List Nat := ceChainLoop cfg.layerLimit cfg.lzmaLayerLimit (value.length + 1) value 0 0 []
-
-/-- htp_gzip_decompressor_create -/
-def decCreate (cfg : Cfg) (ty : Nat) : Dec :=
-  { kind := ty, passthrough := ty == 4 && !(cfg.lzmaLayerLimit > 0) }
 
 /-- htp_tx_state_response_headers -/
 def txStateResponseHeaders (cfg : Cfg) (uid : Nat) (c : Conn) : R :=
